@@ -151,10 +151,16 @@ class VirtualLoop(asyncio.SelectorEventLoop):
         self.on_callback = None      # callable(index) after every callback
         self._exec_pending = 0
         self._origin_us = CLOCK.us   # loop.time() == 0 at creation
+        self._tfloat = 0.0           # exact float deadline of the timer the clock last jumped to
 
     # -- time -----------------------------------------------------------------
     def time(self) -> float:
-        return (CLOCK.us - self._origin_us) / 1e6
+        t = (CLOCK.us - self._origin_us) / 1e6
+        # return the timer's own float deadline after a jump (a difference of 1e-17 s would make the
+        # selector sleep a real millisecond)
+        if abs(t - self._tfloat) < 4e-7 and self._tfloat > t:
+            return self._tfloat
+        return t
 
     def _after_callback(self) -> None:
         self.cb_index += 1
@@ -184,7 +190,11 @@ class VirtualLoop(asyncio.SelectorEventLoop):
             when_us = self._origin_us + int(round(sched[0]._when * 1e6))
             if self.horizon_us is not None and when_us > self.horizon_us:
                 raise BudgetExhausted(f"virtual-time horizon reached ({self.horizon_us}us)")
-            CLOCK.advance_to(when_us)
+            if when_us > CLOCK.us:
+                CLOCK.advance_to(when_us)
+                self._tfloat = sched[0]._when
+            elif sched[0]._when > self.time():
+                self._tfloat = sched[0]._when
         super()._run_once()
 
 
